@@ -1,5 +1,6 @@
 import Pi2.NotationThm
 import Pi2.Sound.Inst
+import Pi2.RustTie
 /-!
 # C11 — substitution and instantiation obey their algebra
 
@@ -380,5 +381,13 @@ theorem notation_instantiate (n : Nat) (δ : List (Nat × NPat)) (p r : NPat) (h
 example : applyESubst 0 (evar 1) (ex 2 (imp (evar 0) (evar 2))) = some (ex 2 (imp (evar 1) (evar 2))) := by decide
 example : applyESubst 0 (evar 2) (ex 2 (imp (evar 0) (evar 2))) = none := by decide   -- capture is rejected
 example : Py.esub 0 (evar 2) (ex 2 (imp (evar 0) (evar 2))) = ex 2 (imp (evar 2) (evar 2)) := by decide
+
+/-- the Rust substitution functions as written in the source (translated on every run) are the model's: the laws above
+hold of `apply_esubst` / `apply_ssubst` of `rust/src/lib.rs` -/
+theorem rust_substitution_is_the_model :
+    Gen.Rust.substTranslated = true ∧
+    (∀ p x plug, Gen.Rust.apply_esubst p x plug = Pat.applyESubst x plug p) ∧
+    (∀ p x plug, Gen.Rust.apply_ssubst p x plug = Pat.applySSubst x plug p) :=
+  ⟨RustTie.substTranslated, RustTie.apply_esubst_eq, RustTie.apply_ssubst_eq⟩
 
 end C11
